@@ -11,6 +11,7 @@ from typing import (
     Optional,
     cast,
     Set,
+    Tuple,
     Type,
     TypeVar,
 )  # pylint: disable=unused-import
@@ -20,6 +21,27 @@ import icontract._checkers
 
 # Pylint can't deal with multiple Python versions and breaks on ``if``'s on method definitions.
 # pylint: skip-file
+
+
+ItemT = TypeVar("ItemT")
+
+
+def _unique_by_identity(items: List[ItemT]) -> List[ItemT]:
+    """
+    Keep the first occurrence of each object in ``items`` and preserve the order.
+
+    A contract which is inherited along several paths (*e.g.*, in a diamond, or when a class is created anew
+    from its own namespace as ``dataclasses.dataclass(slots=True)`` does) is still a single contract: it must be
+    evaluated only once per check, and it does not conflict with itself.
+    """
+    seen = set()  # type: Set[int]
+    result = []  # type: List[ItemT]
+    for item in items:
+        if id(item) not in seen:
+            seen.add(id(item))
+            result.append(item)
+
+    return result
 
 
 def _collapse_invariants(
@@ -49,6 +71,9 @@ def _collapse_invariants(
     # Add invariants in the current namespace
     if invariants_dunder in namespace:
         invariants.extend(namespace[invariants_dunder])
+
+    # An invariant which is inherited along several paths (*e.g.*, in a diamond) is still a single invariant.
+    invariants = _unique_by_identity(invariants)
 
     # Change the final invariants in the namespace.
     #
@@ -88,7 +113,16 @@ def _collapse_preconditions(
 
     # The groups of the bases are copied: a precondition added to this function later on (by a decorator or with
     # ``add_precondition_to_checker``) must not be added to the functions of the bases as well.
-    return [list(group) for group in base_preconditions] + preconditions
+    collapsed = []  # type: List[List[Contract]]
+    seen_groups = set()  # type: Set[Tuple[int, ...]]
+    for group in [list(group) for group in base_preconditions] + preconditions:
+        # The same group which is inherited along several paths is still a single group.
+        group_signature = tuple(id(contract) for contract in group)
+        if group_signature not in seen_groups:
+            seen_groups.add(group_signature)
+            collapsed.append(group)
+
+    return collapsed
 
 
 def _collapse_snapshots(
@@ -102,7 +136,7 @@ def _collapse_snapshots(
     :return: collapsed sequence of snapshots
     """
     seen_names = set()  # type: Set[str]
-    collapsed = base_snapshots + snapshots
+    collapsed = _unique_by_identity(base_snapshots + snapshots)
 
     for snap in collapsed:
         if snap.name in seen_names:
@@ -129,7 +163,7 @@ def _collapse_postconditions(
     :param postconditions: postconditions of the function (before the collapse)
     :return: collapsed sequence of postconditions
     """
-    return base_postconditions + postconditions
+    return _unique_by_identity(base_postconditions + postconditions)
 
 
 def _has_member(base: type, key: str) -> bool:
